@@ -9,7 +9,7 @@ V = os.path.dirname(os.path.dirname(os.path.abspath(__file__)))
 BASE = {}
 
 
-def run(unit, repo="/repo", verbose=True):
+def run(unit, repo="/repo", verbose=True, summary=None):
     p = os.path.join(V, "units", unit + ".mutants.json")
     if not os.path.exists(p):
         print("no mutants for", unit)
@@ -55,6 +55,8 @@ def run(unit, repo="/repo", verbose=True):
             if verbose:
                 print("%-4s %-45s expect=%-9s got=%-10s %s" % ("ok" if ok else "BAD", m["name"], exp, status, info[:220]))
     print("selftest %s: %d killed, %d neutral passed, %d unexpected" % (unit, killed, neutral_ok, bad))
+    if summary is not None:
+        summary.update(dict(unit=unit, mutants=len(muts), killed=killed, neutral_passed=neutral_ok, unexpected=bad))
     return 0 if bad == 0 else 1
 
 
